@@ -122,7 +122,39 @@ def classify_dump_diff(diff: str, case) -> str:
     return "dump_differs"
 
 
+def import_tier(ctx):
+    """Without Pydantic *installed* (not just switched off): every module of the library must still import."""
+    import json as _json
+    tmp = tempfile.mkdtemp(prefix="vf_c09imp_")
+    try:
+        outp = os.path.join(tmp, "out.json")
+        env = child_env()
+        env.pop("MCP_FORCE_FALLBACK", None)
+        r = subprocess.run([PY, "-B", "-m", "vf.workers.nopydantic_import_worker", outp], env=env, cwd=ROOT,
+                           capture_output=True, text=True, timeout=300)
+        if r.returncode != 0 or not os.path.exists(outp):
+            ctx.inconclusive_because(f"no-pydantic import worker failed: {r.stderr[-300:]}")
+            return
+        o = _json.load(open(outp))
+    finally:
+        shutil.rmtree(tmp, ignore_errors=True)
+    if o["pydantic_available"] is not False:
+        ctx.inconclusive_because("blocking pydantic was not effective in the import worker")
+        return
+    ctx.count("modules_imported_without_pydantic", o["imported"])
+    for mod, err in sorted(o["failed"].items()):
+        ctx.violation("module_unimportable_without_pydantic", f"with Pydantic not installed, importing {mod} fails: {err}",
+                      {"module": mod})
+    if o.get("params_error"):
+        ctx.violation("module_unimportable_without_pydantic", f"with Pydantic not installed the transports' parameter models "
+                      f"cannot be built: {o['params_error']}", {"module": "transport parameters"})
+    ctx.record({"import_tier": True}, shape=[o["imported"], len(o["failed"])], nontrivial=True, cls="import_without_pydantic",
+               sample={"imported": o["imported"], "failed": o["failed"]})
+
+
 def run(ctx):
+    if ctx.shard[0] == 0:
+        import_tier(ctx)
     rng = ctx.sub_rng("c09")
     cases, per_class = modelgen.build_cases(rng, ctx.tier)
     env_cases = modelgen.envelope_cases()
